@@ -38,7 +38,7 @@ def oracle(step_i, alter, octave, number, q, down):
 def make_note(number, down):
     Q = quals(number)
 
-    def h(step_i: int, alter: int, octave: int, q_i: int):
+    def h(step_i: int, alter: int, octave: int, q_i: int, via_change: bool):
         import partitura.score as S
         from partitura.utils import music as M
 
@@ -47,7 +47,14 @@ def make_note(number, down):
         require(0 <= octave <= 8)
         require(0 <= q_i < len(Q))
         q = Q[q_i]
-        iv = S.Interval(number, q, "down" if down else "up")
+        if via_change and q_i > 0:
+            # the same interval reached by altering a neighbouring quality (as the Roman-numeral code does)
+            iv = S.Interval(number, Q[q_i - 1], "down" if down else "up").change_quality(1)
+        elif via_change:
+            iv = S.Interval(number, Q[1], "down" if down else "up").change_quality(-1)
+        else:
+            iv = S.Interval(number, q, "down" if down else "up")
+        check(iv.quality == q and iv.semitones == semis(number, q), "Interval after change_quality", iv.quality, iv.semitones)
         nstep, nalt, noct, midi = oracle(step_i, alter, octave, number, q, down)
         require(-2 <= nalt <= 2)  # results that need more than a double accidental are outside the claim
         note = S.Note(STEP_NAMES[step_i], octave, alter)
